@@ -25,7 +25,7 @@ PROPS = {
         parts=[dict(name="memfs"), dict(name="kernel"), dict(name="orefa"), dict(name="kernel-orefa")],
         trusted=MODEL_TRUST + ["oracle: the Linux kernel through OsFS / package os in a chroot-ed child process on a fresh tmpfs directory (corr kernel): MemFS itself, not the model, is compared call by call and tree by tree"],
         assumptions=["administrator; Linux emulation; the root directory is not an operand of remove/rename in the kernel comparison (the oracle's scratch root is not a file-system root)", "set-id bits are not generated in the kernel comparison (kernel-specific inheritance / clearing rules)"],
-        not_yet_proved=["MemFS.step = Posix.step (the Lean reference semantics of Linux is not written yet: equality with Linux is carried by the direct impl≟kernel oracle run and its ledger of divergence classes)", "OrefaFS: executable model (Avfs/FS/Orefa.lean) tied by corr orefa (tree + path index after every call) and compared with the kernel by corr kernel-orefa; no theorems about it yet"],
+        not_yet_proved=["MemFS = POSIX reference is proved for Mkdir, Remove and Stat/Lstat on clean absolute paths that meet no symbolic link (C01_mkdir_posix, C01_remove_posix, C01_stat_posix over the component-wise resolution walkPath); the other calls, paths through links, relative paths: equality with Linux is carried by the direct impl≟kernel oracle run and its ledger of divergence classes", "OrefaFS: executable model (Avfs/FS/Orefa.lean) tied by corr orefa (tree + path index after every call) and compared with the kernel by corr kernel-orefa; no theorems about it yet"],
     ),
     "C04": dict(
         props_files=["Avfs/Props/C04.lean"],
@@ -39,7 +39,7 @@ PROPS = {
         parts=[dict(name="memfs"), dict(name="memfs-perm"), dict(name="memfs-views"), dict(name="orefa")],
         trusted=MODEL_TRUST + ["wfCheck (the executable invariant) is evaluated by the Lean driver on the node graph dumped from the implementation after every call"],
         assumptions=["sequential histories (concurrent executions: C06)", "views whose root directory has been removed through another view are outside the theorem (kernel-checked witness C05_detached_view_witness)"],
-        not_yet_proved=["RenameSafe (the path-prefix test of Rename implies the graph condition)", "wfCheck complete for WF (soundness is C05_wfCheck_sound)", "frame property (a successful call changes only the entries it names)", "OrefaFS: the consistency of its tree and of its path index is an oracle evaluated after every call (corr orefa), not a theorem"],
+        not_yet_proved=["RenameSafe (the path-prefix test of Rename implies the graph condition)", "wfCheck complete for WF (soundness is C05_wfCheck_sound)", "frame property (a successful call changes only the entries it names)", "OrefaFS: the invariant (tree ≟ path index, link counts = number of keys) is proved for every reachable state of the MODEL (C05_orefa_reachable); on the implementation it is the consistency oracle evaluated after every call (corr orefa)"],
     ),
     "C06": dict(
         props_files=["Avfs/Props/C06.lean"],
@@ -112,7 +112,7 @@ PROPS = {
         trusted=MODEL_TRUST,
         assumptions=["one group per user, no ACLs, no capabilities other than the administrator's override"],
         trusted_extra=["oracle: the Linux kernel in a chroot-ed child on tmpfs acting under setfsuid/setfsgid (raw per-thread syscalls, supplementary groups dropped) for every generated user"],
-        not_yet_proved=["per-call equality of the decision with the kernel's as a theorem (it is an oracle run: corr kernel-perm)", "sticky / setgid directory semantics"],
+        not_yet_proved=["per-call equality of the decision with the kernel's as a theorem (it is an oracle run: corr kernel-perm)", "setgid directory inheritance (the sticky bit is implemented since the repair 968ed53, modelled, and compared with the kernel)"],
     ),
     "C09": dict(
         props_files=["Avfs/Props/C09.lean"],
